@@ -22,6 +22,7 @@ PROPERTY = "C03"
 LEVEL = "model_checking"
 FUNCTIONS = [("thejoker/likelihood_helpers.py", "make_full_samples_inmem"), ("thejoker/samples.py", "JokerSamples.unpack"),
              ("thejoker/utils.py", "_pytensor_get_mean_std")]
+PYX_FUNCTIONS = ['CJokerHelper.__init__', 'CJokerHelper.make_AAinv', 'CJokerHelper.make_bBBinv', 'CJokerHelper.likelihood_worker', 'CJokerHelper.batch_get_posterior_samples', 'get_ivar']
 ASSUMPTIONS = c01.ASSUMPTIONS[:4] + [
     "dsysv('U', ...) by contract: solution x of sym(S).x = rhs where sym completes the triangle LAPACK reads (row-major lower); np.linalg.inv by contract X.Y = I; "
     "'n independent draws from N(a, A)' rests on numpy's Generator.multivariate_normal (trusted)",
